@@ -1038,7 +1038,7 @@ Proof.
   - (* data wire: packet granted *)
     assert (I0 : LInvA lc st None) by (eapply LInvA_done; eauto; reflexivity).
     cbn [ev_pkt_ok] in Hep. destruct (pkt_get id (l_pkt st)) as [[tm ct]|] eqn:Ep; [|contradiction].
-    destruct (Qltb (l_now st - ct) (lc_delay lc)) eqn:Eq.
+    destruct (Qltb (l_now st - wd_entered (l_wd st)) (lc_delay lc)) eqn:Eq.
     + apply Qltb_true in Eq. eexists. split; [reflexivity|]. split; [|reflexivity].
       apply sched_A; try reflexivity; try exact Logic.I; [lra| |exact I0]. cbn [ev_pkt_ok]. rewrite Ep. discriminate.
     + destruct (deliver_data_A lc st id) as (st1 & D1 & D2 & D3 & _); [rewrite Ep; discriminate|exact I0|].
@@ -1552,7 +1552,7 @@ Proof.
     + assert (B0 : LInvB lc st None) by (eapply B_done; [|exact HB]; repeat split).
       destruct (wd_waiting (l_wd st)); injection H as <-; [apply wd_get_B|]; exact B0.
   - destruct (pkt_get id (l_pkt st)) as [[tm ct]|]; [|discriminate].
-    destruct (Qltb (l_now st - ct) (lc_delay lc)).
+    destruct (Qltb (l_now st - wd_entered (l_wd st)) (lc_delay lc)).
     + injection H as <-. eapply sched_B_move; [| | | |exact HB]; reflexivity.
     + destruct (deliver_data lc st id) as [st1|] eqn:D; cbn [bind] in H; [|discriminate]. injection H as <-.
       apply wd_get_B. eapply deliver_data_B; eauto. reflexivity.
